@@ -38,6 +38,9 @@ func Unix(sec int64, nsec int64) Time { return time.Unix(sec, nsec) }
 
 var noSim int64
 
+// ResetNoSim restarts the private clock used outside a simulation (one disk-only run = one epoch).
+func ResetNoSim() { noSim = 0 }
+
 // local converts the global virtual clock to the calling process's clock.
 func local(p *simrt.Proc, v int64) int64 {
 	if p == nil || p.RateDen == 0 {
